@@ -278,7 +278,77 @@ def run_case(case):
     return fails, modes, nt
 
 
+EXTENSION_SCRIPT = r"""
+import sys, json
+import gfapy
+from collections import OrderedDict
+
+class Taxon(gfapy.Line):
+  RECORD_TYPE = "T"
+  POSFIELDS = OrderedDict([("tid","identifier_gfa2")])
+  TAGS_DATATYPE = {"UL":"Z"}
+  NAME_FIELD = "tid"
+Taxon.register_extension()
+
+class Assignment(gfapy.Line):
+  RECORD_TYPE = "M"
+  POSFIELDS = OrderedDict([("mid","optional_identifier_gfa2"), ("tid","identifier_gfa2"), ("sid","identifier_gfa2")])
+  TAGS_DATATYPE = {"SC":"i"}
+  NAME_FIELD = "mid"
+Assignment.register_extension(references=[("sid", gfapy.line.segment.GFA2, "assignments"), ("tid", Taxon, "assignments")])
+
+out = []
+g = gfapy.Gfa(version="gfa2")
+for l in ["S\tA\t10\t*", "S\tB\t10\t*", "T\ttx1\tUL:Z:u", "T\ttx2", "M\tm1\ttx1\tA\tSC:i:5", "M\t*\ttx2\tB", "M\tm3\ttx1\tB\txx:J:[1,2]"]:
+  g.add_line(l)
+for l in list(g.lines):
+  if l.record_type not in ("M", "T"):
+    continue
+  t = str(l)
+  c = l.clone()
+  if str(c) != t:
+    out.append(["the clone of an extension record is not written like the original", t, str(c)])
+  if c.is_connected():
+    out.append(["the clone of an extension record belongs to a Gfa", t, None])
+  for k, v in c._data.items():
+    if isinstance(v, gfapy.Line) or (isinstance(v, gfapy.OrientedLine) and isinstance(v.line, gfapy.Line)):
+      out.append(["field %s of the clone of an extension record holds a line of the Gfa instead of its identifier" % k, t, str(v)])
+before = str(g)
+for l in list(g.lines):
+  if l.record_type == "M":
+    c = l.clone()
+    try:
+      c.set("SC", 99); c.set("zz", "edited")
+    except gfapy.Error:
+      pass
+if str(g) != before:
+  out.append(["editing the clones of extension records changed the Gfa", before, str(g)])
+# a rename in the Gfa does not reach a clone made before it
+m = [l for l in g.lines if l.record_type == "M"][0]
+c = m.clone(); t = str(c)
+g.segment("A").name = "renamed"
+if str(c) != t:
+  out.append(["renaming a segment of the Gfa changed a clone made before", t, str(c)])
+print(json.dumps(out))
+"""
+
+
+def extension_records():
+    """clones of the records of an extension (two record types, one with two reference fields), in a process of its own
+    because registering an extension changes the classes of gfapy for good"""
+    import subprocess, json, os
+    env = dict(os.environ, PYTHONPATH=core.REPO, PYTHONHASHSEED="0")
+    r = subprocess.run([core.PY, '-c', EXTENSION_SCRIPT], capture_output=True, text=True, timeout=120, env=env)
+    if r.returncode != 0:
+        return [['the extension scenario raised', None, r.stderr.strip().split('\n')[-1][:200]]]
+    return json.loads(r.stdout.strip().split('\n')[-1])
+
+
 def run(ctx, deep, model_ok):
+    for what, exp, obs in extension_records():
+        ctx.violation('failing-input', what, {'kind': 'extension', 'script': 'EXTENSION_SCRIPT of harness/props/c19.py'}, exp, obs,
+                      python=EXTENSION_SCRIPT)
+    ctx.count({'kind': 'extension'}, True)
     rng = ctx.rng
     n = 200 if deep else 40
     allmodes = set()
